@@ -94,6 +94,12 @@ def run(ctx):
     cases = P.build_cases(ctx, n, gen_kwargs=dict(size=7), nsub_choices=(1, 1, 2, 3), compressed=(False, False, True),
                           versions=(33, 33, 33, 25, 19, 13, 28), editions=(4, 4, 3, 2))
     cases += narrow_field_cases(ctx, ctx.n(60, 1500))
+    # fields wider than 64 bits (201YYY adds up to 127 bits): D26
+    rng = ctx.rng
+    for w in (65, 70, 100):
+        cases.append({'ids': [1001, 201000 + 128 + (w - 15), 7001, 201000, 1002], 'version': 33, 'edition': 4, 'nsub': 1,
+                      'compressed': False, 'forced': '-', 'seed': rng.randrange(1, 2 ** 32), 'maxrep': 3,
+                      'features': {'field-wider-than-64-bits': 1}, 'shared': False})
     P.attach_templates(cases)
     P.run_gen(cases)
     P.run_encode(cases)
@@ -128,7 +134,10 @@ def run(ctx):
             n_ok += 1
             if not P.roundtrip_holds(c):
                 # model and implementation agree but the decoded values are not the generated ones
-                ctx.violation({'kind': 'C01-roundtrip', 'case': case}, 'decode(encode(v)) != canon(v) for ids=%s' % c['ids'])
+                rec = {'kind': 'C01-roundtrip', 'case': case}
+                if c.get('impl_dec') and c['impl_dec'][0] == 'err' and c['impl_dec'][1] == 9 and P.wide_field_cause(c):
+                    rec['cause'] = 'field-wider-than-64-bits'
+                ctx.violation(rec, 'decode(encode(v)) != canon(v) for ids=%s' % c['ids'])
         if nontriv:
             ctx.sample({'ids': c['ids'], 'nsub': c['nsub'], 'values_subset0': c['val_toks'][0][:10],
                         'model_decode': c.get('model_dec', '')[:120]}, limit=3)
